@@ -114,7 +114,7 @@ class ChainData:
 
     """
 
-    def __init__(self, parameters, dtypes=None, ntemps=1):
+    def __init__(self, parameters, dtypes=None, ntemps=1, keepdims=False):
         self.parameters = tuple(parameters)
         self._data = None
         self._dtypes = {}
@@ -122,6 +122,7 @@ class ChainData:
             dtypes = {}
         self.dtypes = dtypes  # will call the dtypes.setter, below
         self.ntemps = ntemps
+        self.keepdims = keepdims
 
     @property
     def data(self):
@@ -185,7 +186,7 @@ class ChainData:
     def extend(self, n):
         """Extends scratch space by n items.
         """
-        if self.ntemps == 1:
+        if self.ntemps == 1 and not self.keepdims:
             newshape = n
         else:
             newshape = (n, self.ntemps)
